@@ -1,7 +1,7 @@
 (* C13 — property theorems.  Only statements closed by `exact`, each followed by Print Assumptions. *)
 From OlaBase Require Import Bytes.
-From C13 Require Import Gen GenTables Model AckTimer Responders MovingLight Network Dummy Chk Proofs ProofsHelpers
-  ProofsResp ProofsMoving ProofsNet ProofsDimmer ProofsAck ProofsFan.
+From C13 Require Import Gen GenTables Model AckTimer Responders MovingLight Network Dummy AdvDimmer Chk Proofs
+  ProofsHelpers ProofsResp ProofsMoving ProofsNet ProofsAdv ProofsDimmer ProofsAck ProofsFan.
 Local Open Scope N_scope.
 
 (* ---- layer 2: the response builders ---- *)
@@ -447,6 +447,44 @@ Example c13_dummy_hyps_satisfiable :
   known_testdata (mkReq 1 2 0 1 0 GET_COMMAND PID_TEST_DATA [16; 1]) = false.
 Proof. repeat split; vm_compute; congruence. Qed.
 
+(* ---- AdvancedDimmerResponder, handler by handler (lock state / PIN, presets, fail and start-up modes, the four
+   setting managers), from every state: no handler hypothesis, no invariant needed ---- *)
+Theorem c13_advanced_dimmer :
+  forall c uid q st,
+    let out := fst (ad_send c uid q st) in
+    let st' := snd (ad_send c uid q st) in
+    (exists s ro, out = [(s, ro)]) /\
+    (is_broadcast (q_dst q) = true -> exists s, out = [(s, None)]) /\
+    (is_broadcast (q_dst q) = false -> directed_to (q_dst q) uid = true ->
+     q_cc q = GET_COMMAND \/ q_cc q = SET_COMMAND ->
+     exists r, out = [(RDM_COMPLETED_OK, Some r)] /\ resp_ok q r /\
+               (r_type r = RDM_NACK_REASON -> st' = st)).
+Proof. exact advanced_dimmer_conforms. Qed.
+Print Assumptions c13_advanced_dimmer.
+
+(* whatever the lock state and PIN, a request that is not a unicast to this responder gets no response ... *)
+Theorem c13_advanced_dimmer_locked_silent :
+  forall c uid q st,
+    is_broadcast (q_dst q) = true \/ directed_to (q_dst q) uid = false ->
+    exists s, fst (ad_send c uid q st) = [(s, None)].
+Proof. exact advanced_dimmer_locked_silent. Qed.
+Print Assumptions c13_advanced_dimmer_locked_silent.
+
+(* ... and a unicast SET of a locked parameter is NACKed NR_WRITE_PROTECT with the state untouched *)
+Theorem c13_advanced_dimmer_write_protect :
+  forall c uid q st,
+    is_broadcast (q_dst q) = false -> directed_to (q_dst q) uid = true -> q_cc q = SET_COMMAND ->
+    q_sub q = ROOT_RDM_DEVICE ->
+    (q_pid q = PID_DMX_START_ADDRESS /\ 0 < ad_lock st) \/ (q_pid q = PID_DMX_PERSONALITY /\ 1 < ad_lock st) ->
+    ad_send c uid q st = ([(RDM_COMPLETED_OK, nack_with_reason q NR_WRITE_PROTECT 0)], st).
+Proof. exact advanced_dimmer_write_protect. Qed.
+Print Assumptions c13_advanced_dimmer_write_protect.
+
+(* the lock states are reachable: SET LOCK_STATE with the right PIN *)
+Example c13_advanced_dimmer_lock_reachable :
+  ad_lock (snd (ad_send (mkCfg [] [] [] []) 5 (mkReq 9 5 1 1 0 SET_COMMAND 1601 [0; 0; 2]) ad_init)) = 2.
+Proof. vm_compute. reflexivity. Qed.
+
 (* the composite DimmerResponder (root + SubDeviceDispatcher + sub-devices, handlers as modelled): every request,
    in every state, is completed exactly once and no deleted fan-out tracker is touched *)
 Theorem c13_dimmer_once :
@@ -461,10 +499,10 @@ Theorem c13_tables :
     shape (sr_table c) = TBL_SensorResponder /\ shape (ds_table c n) = TBL_DimmerSubDevice /\
     shape (dm_table c) = TBL_DimmerRootDevice /\ shape (at_table c) = TBL_AckTimerResponder /\
     shape (ml_table mc) = TBL_MovingLightResponder /\ shape (nr_table nc) = TBL_NetworkResponder /\
-    shape (dr_table dc) = TBL_DummyResponder.
+    shape (dr_table dc) = TBL_DummyResponder /\ shape (ad_table c) = TBL_AdvancedDimmerResponder.
 Proof.
   exact (fun c mc n nc dc => conj eq_refl (conj eq_refl (conj eq_refl (conj eq_refl (conj eq_refl
-                             (conj eq_refl eq_refl)))))).
+                             (conj eq_refl (conj eq_refl eq_refl))))))).
 Qed.
 Print Assumptions c13_tables.
 
